@@ -11,6 +11,7 @@ use allsorts::cff::cff2::CFF2;
 use allsorts::cff::CFF;
 use allsorts::error::ParseError;
 use allsorts::font::read_cmap_subtable;
+use allsorts::outline::OutlineBuilder;
 use allsorts::layout::{new_layout_cache, GDEFTable, LayoutTable, GPOS, GSUB};
 use allsorts::post::PostTable;
 use allsorts::tables::cmap::{Cmap, CmapSubtable};
@@ -36,6 +37,33 @@ use crate::rng::Fnv;
 use crate::util::bytes_digest;
 
 pub type WalkErr = (String, String);
+
+struct CountSink(u64);
+impl allsorts::outline::OutlineSink for CountSink {
+    fn move_to(&mut self, _: allsorts::pathfinder_geometry::vector::Vector2F) {
+        self.0 += 1
+    }
+    fn line_to(&mut self, _: allsorts::pathfinder_geometry::vector::Vector2F) {
+        self.0 += 1
+    }
+    fn quadratic_curve_to(
+        &mut self,
+        _: allsorts::pathfinder_geometry::vector::Vector2F,
+        _: allsorts::pathfinder_geometry::vector::Vector2F,
+    ) {
+        self.0 += 1
+    }
+    fn cubic_curve_to(
+        &mut self,
+        _: allsorts::pathfinder_geometry::line_segment::LineSegment2F,
+        _: allsorts::pathfinder_geometry::vector::Vector2F,
+    ) {
+        self.0 += 1
+    }
+    fn close(&mut self) {
+        self.0 += 1
+    }
+}
 
 fn pe(e: ParseError) -> WalkErr {
     let s = format!("{:?}", e);
@@ -517,16 +545,73 @@ pub fn parse_table(p: &impl FontTableProvider, t: u32) -> Result<String, WalkErr
             Ok(format!("cbdt v{}.{}", t.major_version, t.minor_version))
         }
         tag::CFF => {
-            let cff = scope.read::<CFF<'_>>().map_err(pe)?;
+            let mut cff = scope.read::<CFF<'_>>().map_err(pe)?;
+            let mut h = Fnv::new();
+            let mut errs = 0;
+            let n = cff
+                .fonts
+                .first()
+                .map(|f| f.char_strings_index.len())
+                .unwrap_or(0)
+                .min(256) as u16;
+            if let Some(font) = cff.fonts.first() {
+                h.write(format!("cid={}", font.is_cid_keyed()).as_bytes());
+                for g in probe_gids(n) {
+                    h.write(format!("{:?}", font.charset.id_for_glyph(g)).as_bytes());
+                }
+                for sid in [0u16, 1, 390, 391, 400, 0xffff] {
+                    h.write(format!("{:?}", font.charset.sid_to_gid(sid)).as_bytes());
+                    h.write(format!("{:?}", cff.read_string(sid).is_ok()).as_bytes());
+                }
+            }
+            for g in 0..n {
+                let mut sink = CountSink(0);
+                match cff.visit(g, &mut sink) {
+                    Ok(()) => h.write_u64(sink.0),
+                    Err(e) => {
+                        errs += 1;
+                        h.write(format!("{:?}", e).as_bytes())
+                    }
+                }
+            }
             Ok(format!(
-                "cff fonts={} names={}",
+                "cff fonts={} names={} visited={} errs={} {:016x}",
                 cff.fonts.len(),
-                cff.name_index.len()
+                cff.name_index.len(),
+                n,
+                errs,
+                h.finish()
             ))
         }
         tag::CFF2 => {
             let cff2 = scope.read::<CFF2<'_>>().map_err(pe)?;
-            Ok(format!("cff2 fonts={}", cff2.fonts.len()))
+            let mut h = Fnv::new();
+            let mut errs = 0;
+            let n = cff2.char_strings_index.len().min(256) as u16;
+            let tuple = unit_tuple(p);
+            for (k, t) in [None, tuple.as_ref()].into_iter().enumerate() {
+                if k == 1 && t.is_none() {
+                    break;
+                }
+                let mut o = allsorts::cff::outline::CFF2Outlines { table: &cff2, tuple: t };
+                for g in 0..n {
+                    let mut sink = CountSink(0);
+                    match o.visit(g, &mut sink) {
+                        Ok(()) => h.write_u64(sink.0),
+                        Err(e) => {
+                            errs += 1;
+                            h.write(format!("{:?}", e).as_bytes())
+                        }
+                    }
+                }
+            }
+            Ok(format!(
+                "cff2 fonts={} visited={} errs={} {:016x}",
+                cff2.fonts.len(),
+                n,
+                errs,
+                h.finish()
+            ))
         }
         _ => Ok(format!("raw {}", bytes_digest(&d))),
     }
